@@ -24,7 +24,7 @@ var c07Kinds = []string{"caller-error", "duplicate", "empty-value", "missing-fk-
 	"pre-commit-action-error-then-ok-action", "unusable-key-in-patch", "veto-update-in-patch",
 	"pre-commit-action-error-via-derived-system-ctx", "unusable-key-via-child-store", "unusable-key-update-via-child-store",
 	"pre-commit-action-error-registered-before-tx", "unstorable-tag-nested-in-list", "unstorable-tag-top-level-in-patch",
-	"missing-link-target-in-persisted-link-set", "missing-link-target-in-persisted-link-set-via-child-store", "self-id-reference-to-missing-target"}
+	"missing-link-target-in-persisted-link-set", "missing-link-target-in-persisted-link-set-via-child-store", "self-id-reference-to-missing-target", "veto-cascaded-delete-of-child-entity"}
 
 var c07Entries = []string{"update", "nested-update", "batch"}
 
@@ -72,6 +72,13 @@ func c07OpGen(t *rapid.T, l string, m *kit.Model) kit.Op {
 
 func genC07(t *rapid.T) c07Case {
 	c := c07Case{Setup: kit.GenHistory(t, c06Cfg, 10, 3, false, 90, c07OpGen)}
+	if rapid.IntRange(0, 3).Draw(t, "childWithDependants") > 0 {
+		// make sure the database holds an entity with child data that other entities depend on (cascade wiring)
+		c.Setup.Txs = append(c.Setup.Txs, kit.TxSpec{Ops: []kit.Op{
+			{Kind: "create", Store: "kids", ID: "id-thx", Spec: &kit.EntSpec{Name: "name-thx", Extra: "extra-thx", Roles: []string{"r1"}}},
+			{Kind: "create", Store: "deps", ID: "id-dpx", Spec: &kit.EntSpec{Name: "d", Ref: kit.Sp("id-thx")}},
+			{Kind: "create", Store: "deps", ID: "id-dpy", Spec: &kit.EntSpec{Name: "d", Ref: kit.Sp("id-thx")}}}})
+	}
 	// strip caller aborts / batches from the setup: it only has to populate the database
 	for i := range c.Setup.Txs {
 		c.Setup.Txs[i].Fail, c.Setup.Txs[i].Batch = false, false
@@ -230,11 +237,15 @@ func failingVariant(kind string, m *kit.Model) (c07Variant, bool) {
 			}
 		}
 		return v, false
-	case "veto-cascaded-delete":
+	case "veto-cascaded-delete", "veto-cascaded-delete-of-child-entity":
 		// deleting a thing cascades to its deps; the veto is raised for the cascaded delete
-		for _, id := range c06IDs["things"] {
-			if _, ok := m.Ents["things"][id]; !ok {
+		for _, id := range append([]string{"id-thx"}, c06IDs["things"]...) {
+			e, ok := m.Ents["things"][id]
+			if !ok {
 				continue
+			}
+			if kind == "veto-cascaded-delete-of-child-entity" && len(e.Kid) == 0 {
+				continue // this kind wants a thing that has child data (its delete also runs the child store's pass)
 			}
 			deps := m.Referrers("things", id)["deps"]
 			if len(deps) == 0 {
